@@ -250,6 +250,20 @@ func shrinkCandidates(p *plan.Plan, v plan.Violation) []*plan.Plan {
 			}
 		}
 	case "typesweep":
+		if p.Sweep != nil && len(p.Sweep.OnlyName) > 1 {
+			n := len(p.Sweep.OnlyName)
+			add(func(q *plan.Plan) bool { q.Sweep.OnlyName = append([]string(nil), q.Sweep.OnlyName[n/2:]...); return true })
+			add(func(q *plan.Plan) bool { q.Sweep.OnlyName = append([]string(nil), q.Sweep.OnlyName[:n/2]...); return true })
+			if n <= 12 {
+				for i := 0; i < n; i++ {
+					i := i
+					add(func(q *plan.Plan) bool {
+						q.Sweep.OnlyName = append(append([]string(nil), q.Sweep.OnlyName[:i]...), q.Sweep.OnlyName[i+1:]...)
+						return true
+					})
+				}
+			}
+		}
 		if p.Sweep != nil && len(p.Sweep.Only) > 1 {
 			n := len(p.Sweep.Only)
 			add(func(q *plan.Plan) bool { q.Sweep.Only = q.Sweep.Only[n/2:]; return true })
